@@ -5,13 +5,20 @@ Two halves.  (1) For ALL infinite answer sequences of the simulated contact: a c
 accepted by `certOk` implies equal traces (`validCert_sound`, `flows_equiv_of_cert`) — the
 checker is run on every real compiler output against the reference interpretation
 `RefFlow.refFlow` of the same parsed rows.  (2) For all sheets: see `C02_full` below — the
-universal claim over sheets needs the compiler model (M4) and is discharged per sheet by (1).
+universal claim over sheets needs the compiler model (M4) and is discharged per sheet by (1);
+for ALL sheets of the fragment `CoreSheet.inFragment` it is PROVED with the Lean compiler model in
+place of the real compiler: `compile_refines_reference` / `C02_fragment` (lock-step simulation of
+the compiler machine and the reference's pass 1 + traces depend only on the index-resolved
+abstraction of a flow); the fragment: action rows and `wait_for_response` / `split_by_value` /
+`split_by_group` rows with conditional and unconditional edges; `C02_fragment_full` names what is
+left.
 -/
 import Rpft.Lemmas.Bisim
 import Rpft.FlowSys
 import Rpft.RefFlow
 import Rpft.Lemmas.RefFlowClosed
 import Rpft.Gen.Tables
+import Rpft.Lemmas.CoreFinal
 set_option linter.unusedSimpArgs false
 set_option linter.unusedVariables false
 namespace Rpft.Props.C02
@@ -136,6 +143,166 @@ per sheet this is decided by `flows_equiv_of_cert` on the real output. -/
 def C02_full (compile : List RefFlow.RRow → Option Flow.Flow) : Prop :=
   ∀ rows f r, compile rows = some f → RefFlow.refFlow rows = .ok r →
     ∀ env n, trace ⟨false, true⟩ r env n = trace ⟨false, true⟩ f env n
+
+/-! ### the universal refinement theorem on a fragment of core sheets -/
+
+/-- **C02 for ALL sheets of the fragment** (`C02_full` with the Lean compiler model — tied to the
+real parser by exact comparison, C01 — in place of the abstract `compile`, restricted to
+`CoreSheet.inFragment`): whatever the rows, as long as they are in the fragment, if the compiler
+model compiles the sheet and the reference interpretation exists, then for EVERY stream of
+environment answers and every length the contact observes the same actions in the same order and
+faces the same decisions (operand, ordered tests with their arguments, wait / timeout, result name)
+in the compiled flow as in the meaning of the rows.  Both readings are taken from ONE list of parsed
+rows (`CoreSheet.CRow`; `toEvent` / `toRRow` are cross-checked against the inputs the harness builds
+on every explored sheet).  The fragment: action rows and deciding rows (`wait_for_response` with or
+without timeout, `split_by_value`, `split_by_group`), any number of conditional or unconditional
+edges per row — chains, trees, joins, last-edge-wins defaults, tests appended in row order,
+"No Response" branches — under the single-meaning conditions `edgeOk` / `distinctTests`.
+Proof: lock-step simulation of the compiler machine and pass 1 of the reference (after every prefix
+of the sheet, arena node `j` is the compiled form of row `j` with the out-edges recorded for `j`:
+`CoreSheet.Rel`, `row_sim`), then equality of the index-resolved abstractions of the two flows
+(`Flow.trace_eq_of_abs`: identifiers do not matter; `Flow.Positional`: in a switch node built case
+by case, answer `c` leads where exit `c` leads).  Category names are not observed (C02's level);
+`rnf`: whether result names are. -/
+theorem compile_refines_reference (rnf : Bool) (testTypes : List Str)
+    (rows : List CoreSheet.CRow) (out : Compile.Out) (r : Flow.Flow)
+    (hF : CoreSheet.inFragment rows = true)
+    (hc : Compile.compile RefFlow.noArgsTests testTypes (rows.map CoreSheet.toEvent) = .ok out)
+    (hr : RefFlow.refFlow (rows.map CoreSheet.toRRow) = .ok r) :
+    ∀ env n, trace ⟨false, rnf⟩ r env n = trace ⟨false, rnf⟩ (Compile.renderOut out) env n :=
+  fun env n => trace_eq_of_abs _ _ _ (CoreSheet.fragment_abs rnf testTypes rows out r hF hc hr) env n
+
+/-- the statement at the observation level of C02, with the source's table of tests without
+argument (`tables_agree` below) -/
+theorem C02_fragment (testTypes : List Str) (rows : List CoreSheet.CRow) (out : Compile.Out)
+    (r : Flow.Flow) (hF : CoreSheet.inFragment rows = true)
+    (hc : Compile.compile RefFlow.noArgsTests testTypes (rows.map CoreSheet.toEvent) = .ok out)
+    (hr : RefFlow.refFlow (rows.map CoreSheet.toRRow) = .ok r) :
+    ∀ env n, trace ⟨false, true⟩ r env n = trace ⟨false, true⟩ (Compile.renderOut out) env n :=
+  compile_refines_reference true testTypes rows out r hF hc hr
+
+/-- What is NOT proved universally: the same statement for every sheet the parser accepts, i.e.
+with a weaker `wf` than `inFragment` (the documented single-meaning conditions DESIGN §5 C02 WF,
+NoopStable) — conditional edges leaving action rows (a router node is created behind the action:
+two compiled nodes for one reference node), `split_random`, sub-flow / webhook / airtime rows,
+`go_to`, `hard_exit` / `loose_exit`, `no_op`, explicit category names, node merging, blocks.
+Decided per explored sheet by `flows_equiv_of_cert` on the real output. -/
+def C02_fragment_full (wf : List CoreSheet.CRow → Prop) : Prop :=
+  ∀ (testTypes : List Str) (rows : List CoreSheet.CRow) (out : Compile.Out) (r : Flow.Flow),
+    wf rows → Compile.compile RefFlow.noArgsTests testTypes (rows.map CoreSheet.toEvent) = .ok out →
+    RefFlow.refFlow (rows.map CoreSheet.toRRow) = .ok r →
+    ∀ env n, trace ⟨false, true⟩ r env n = trace ⟨false, true⟩ (Compile.renderOut out) env n
+
+/-! #### non-vacuity and negative witnesses -/
+
+/-- a row: id, type, edges (`from`, condition value), the content of its action; optional: the
+`no_response` cell, the expression, a variable / category name on its conditional edges, a given
+node identifier, a different action content in the documentation's table -/
+def mkRow (id type : String) (edges : List (String × String)) (act : Option String) (nr : String := "")
+    (expr : String := "") (var : String := "") (name : String := "") (uuid : String := "")
+    (ract : Option String := none) : CoreSheet.CRow :=
+  { row := { rowId := id.toList, type := type.toList,
+             edges := edges.map (fun (f, v) => ⟨f.toList, ⟨v.toList, if v = "" then [] else var.toList, [],
+                                                          if v = "" then [] else name.toList⟩⟩),
+             action := act.map String.toList, actionOk := true, ownAction := none, nodeUuid := uuid.toList,
+             nodeName := [], saveName := "res".toList, noResponse := nr.toList, expression := expr.toList,
+             flowName := [], dests := [], resultKey := none, nodeOk := true },
+    refAct := (match ract with | some x => some x | none => act).map String.toList }
+
+def exTests : List Str := ["has_any_word".toList, "has_group".toList]
+
+/-- a message, a wait with timeout left by two tests, an unconditional edge (default) and a
+"No Response" edge, a join into a group split, a value split, joins at the end -/
+def exRows : List CoreSheet.CRow :=
+  [ mkRow "a" "send_message" [("start", "")] (some "A"),
+    mkRow "w" "wait_for_response" [("a", "")] none "60",
+    mkRow "y" "send_message" [("w", "yes")] (some "Y"),
+    mkRow "n" "send_message" [("w", "no")] (some "N"),
+    mkRow "t" "send_message" [("w", "No Response")] (some "T"),
+    mkRow "g" "split_by_group" [("y", ""), ("n", "")] none,
+    mkRow "m" "send_message" [("g", "members"), ("w", "")] (some "M"),
+    mkRow "v" "split_by_value" [("g", "")] none "" "@fields.x",
+    mkRow "z" "send_message" [("v", "7"), ("t", "")] (some "Z") ]
+
+/-- the two traces of a sheet (compiler model / reference) under an environment, when both exist -/
+def bothTraces (rows : List CoreSheet.CRow) (env : Nat → Nat) (n : Nat) : Option (List Obs × List Obs) :=
+  match Compile.compile RefFlow.noArgsTests exTests (rows.map CoreSheet.toEvent),
+      RefFlow.refFlow (rows.map CoreSheet.toRRow) with
+  | .ok out, .ok r => some (trace ⟨false, true⟩ (Compile.renderOut out) env n, trace ⟨false, true⟩ r env n)
+  | _, _ => none
+
+/-- non-vacuity: the sheet is in the fragment, the compiler model compiles it (nine nodes), the
+reference interpretation exists (nine nodes) — and, as the theorem says, the traces agree (checked
+here for two answer streams) -/
+example : CoreSheet.inFragment exRows = true ∧
+    (∃ out, Compile.compile RefFlow.noArgsTests exTests (exRows.map CoreSheet.toEvent) = .ok out ∧
+      out.nodes.length = 9) ∧
+    (∃ r, RefFlow.refFlow (exRows.map CoreSheet.toRRow) = .ok r ∧ r.nodes.length = 9) ∧
+    (bothTraces exRows (fun k => k) 8).map (fun p => decide (p.1 = p.2)) = some true ∧
+    (bothTraces exRows (fun k => 2 * k + 1) 8).map (fun p => decide (p.1 = p.2)) = some true := by
+  refine ⟨by decide +kernel, ?_, ?_, by decide +kernel, by decide +kernel⟩
+  · have h : (match Compile.compile RefFlow.noArgsTests exTests (exRows.map CoreSheet.toEvent) with
+        | .ok out => decide (out.nodes.length = 9) | .error _ => false) = true := by decide +kernel
+    split at h
+    · rename_i out ho; exact ⟨out, ho, by simpa using h⟩
+    · cases h
+  · have h : (match RefFlow.refFlow (exRows.map CoreSheet.toRRow) with
+        | .ok r => decide (r.nodes.length = 9) | .error _ => false) = true := by decide +kernel
+    split at h
+    · rename_i r hr; exact ⟨r, hr, by simpa using h⟩
+    · cases h
+
+/-- outside the fragment, with both readings defined and the traces DIFFERENT -/
+def refuted (rows : List CoreSheet.CRow) (n : Nat) : Bool :=
+  !CoreSheet.inFragment rows &&
+  match bothTraces rows (fun _ => 0) n with
+  | some p => decide (p.1 ≠ p.2)
+  | none => false
+
+/-- clause "the action the compiler attaches is the one the documentation describes" (the part of
+C02 that is about action content, a parameter of both models) -/
+theorem fragment_needs_same_action :
+    refuted [mkRow "a" "send_message" [("start", "")] (some "A") "" "" "" "" "" (some "B")] 1 = true := by
+  decide +kernel
+
+/-- clause "no node identifier is given": a given `_nodeId` that collides with an identifier the
+compiler invents later (`~4` becomes the identifier of the second row's node) makes the first node
+lead to itself — the compiled flow repeats A, the rows say A then B -/
+theorem fragment_needs_no_given_id :
+    refuted [mkRow "a" "send_message" [("start", "")] (some "A") "" "" "" "" "~4",
+             mkRow "b" "send_message" [("a", "")] (some "B")] 3 = true := by
+  decide +kernel
+
+/-- clause `distinctTests`: the same test twice on the edges leaving one row — the compiler reads
+"same case, new destination" (the answer now leads to the second row), the rows read a second,
+unreachable test -/
+theorem fragment_needs_distinct_tests :
+    refuted [mkRow "w" "wait_for_response" [("start", "")] none,
+             mkRow "y" "send_message" [("w", "yes")] (some "Y"),
+             mkRow "n" "send_message" [("w", "yes")] (some "N")] 3 = true := by
+  decide +kernel
+
+/-- clause `edgeOk`, `wait_for_response`: a condition that names a variable replaces the operand of
+the wait node (the decision is no longer about the reply) -/
+theorem fragment_needs_no_variable_on_wait :
+    refuted [mkRow "w" "wait_for_response" [("start", "")] none,
+             mkRow "y" "send_message" [("w", "yes")] (some "Y") "" "" "@fields.x"] 3 = true := by
+  decide +kernel
+
+/-- clause `edgeOk`, category names: two tests given the same category name share one category, hence
+one destination (the last) -/
+theorem fragment_needs_no_shared_category_name :
+    refuted [mkRow "w" "wait_for_response" [("start", "")] none,
+             mkRow "y" "send_message" [("w", "yes")] (some "Y") "" "" "" "Cat",
+             mkRow "n" "send_message" [("w", "no")] (some "N") "" "" "" "Cat"] 3 = true := by
+  decide +kernel
+
+/-- clause `edgeOk`, split rows: the reserved condition "no response" on an edge leaving a split row
+is dropped by the compiler (there is no timeout) and read as a test by the rows -/
+theorem fragment_needs_no_noresponse_on_split :
+    refuted [mkRow "v" "split_by_value" [("start", "")] none "" "@fields.x",
+             mkRow "y" "send_message" [("v", "no response")] (some "Y")] 3 = true := by
+  decide +kernel
 
 /-- T1: the tests without argument of the reference interpretation are the source's
 `RouterCase.NO_ARGS_TESTS` (re-extracted on every run). -/
